@@ -17,6 +17,9 @@ Streams
   wrap     : > 256 sequential requests (cursor wrap-around) with long-lived
              transactions occupying IDs the cursor has to skip; exhaustion of
              all 255 reachable IDs toward one peer
+  reenter  : the stub application submits a request from INSIDE its confirmation
+             callback (same peer + same explicit ID | other ID | other peer) with
+             1..4 younger transactions outstanding; model = frame, then request
   nextid   : get_next_invoke_id alone for every starting cursor 0..255 against
              random / adversarial occupancies
   corpus   : corpus/C11/*.json (pre-fix witnesses) first
@@ -31,7 +34,9 @@ and outputs of the real code):
   carries that peer and ID; with no such live transaction nothing at all
   happens; a request repeated while the first is with the application is not
   indicated again; equal IDs from different peers give two transactions and two
-  indications; a confirmation's content is what that peer sent for that ID.
+  indications; a confirmation's content is what that peer sent for that ID; a
+  request re-issued from inside the confirmation callback stays outstanding and
+  gets its own answer.
 """
 import json, os
 from . import core
@@ -316,7 +321,13 @@ class Mix:
             a = {"t": 3, "id": inv, "svc": 200, "seg": 1, "mor": self.rng.choice([1, 1, 0]),
                  "seq": ((tr.lastSequenceNumber or 0) + 1) % 256, "win": tr.actualWindowSize or 1,
                  "hex": payload(self.rng, 9).hex()}
-        self.inject(p, a)
+        if st == 2 and not a.get("seg") and self.rng.random() < 0.25:
+            re = {"peer": self.rng.choice([p, p, self.rng.randrange(self.npeers)]), "svc": 200, "data": b"re",
+                  "id": self.rng.choice([inv, inv, None])}
+            self.last_frame = (p, a)
+            self.step(self.L.frame_reenter, p, a, re)
+        else:
+            self.inject(p, a)
         if (p, inv) not in [(x[0], x[1]) for x in self.live("cl")]:
             self.dead.append(("cl", p, inv))
 
@@ -504,6 +515,85 @@ def exhaust_scenario(ctx, rng, label):
     return L
 
 
+def reenter_scenario(ctx, rng, label):
+    """the application re-enters the stack from inside its confirmation callback: it submits
+    a new confirmed request (same peer + same explicit invoke ID | same peer, other ID |
+    another peer, same ID) while 1..4 YOUNGER transactions are outstanding behind the
+    answered one.  Model: `frame` followed at once by `request`.  Oracle: the reply is
+    applied to exactly the transaction that was live with that key when the frame arrived;
+    the re-issued request stays outstanding and gets ITS OWN answer."""
+    cfg = T.default_cfg()
+    cfg["retries"] = rng.choice([0, 3])
+    L = T.Lock(cfg, [], next_id=rng.choice([1, 40, 250]))
+    L.label = label
+    O = Oracle(ctx, L, label)
+
+    def step(fn, *a):
+        n0 = len(L.events)
+        r = fn(*a)
+        for i in range(n0, len(L.events)):
+            O.after(L.events[i], L.replies[i])
+        return r
+    npeers = rng.choice([1, 2, 3])
+    p0 = rng.randrange(npeers)
+    for _ in range(rng.choice([0, 0, 1, 2])):           # older transactions in front
+        step(L.request, rng.randrange(npeers), 200, b"old", None)
+    id0 = rng.choice([7, 100, 255, 0])
+    step(L.request, p0, 200, b"first", id0)
+    for _ in range(rng.choice([1, 1, 2, 3, 4])):        # younger ones behind it
+        step(L.request, rng.randrange(npeers), 200, b"young", None)
+    mode = rng.choice(["same", "same", "same", "other-id", "other-peer"])
+    if mode == "same":
+        re = {"peer": p0, "svc": 200, "data": b"again", "id": id0}
+    elif mode == "other-id":
+        re = {"peer": p0, "svc": 200, "data": b"again", "id": rng.choice([None, (id0 + 77) % 256])}
+    else:
+        re = {"peer": (p0 + 1) % max(2, npeers), "svc": 200, "data": b"again", "id": id0}
+    kind = rng.choice(["simple", "complex", "error", "reject", "abort"])
+    a = {"simple": {"t": 2, "id": id0, "svc": 200},
+         "complex": {"t": 3, "id": id0, "svc": 200, "hex": "a1a2a3"},
+         "error": {"t": 5, "id": id0, "svc": 200, "hex": "9100"},
+         "reject": {"t": 6, "id": id0, "reason": 3},
+         "abort": {"t": 7, "id": id0, "srv": 1, "reason": 4}}[kind]
+    before = keyed(L.snapshot()["cl"])
+    r1, r2 = step(L.frame_reenter, p0, a, re)
+    case_line = L.events[-1]
+    if r2 is None:
+        O.fail("reenter", "the answer for a live request produced no confirmation", case_line)
+        return L
+    # the answer went to the transaction that was live when it arrived, exactly once
+    confs1 = [o for o in r1["out"] if o["o"] == "conf"]
+    if len(confs1) != 1 or confs1[0]["peer"] != p0:
+        O.fail("reenter", "expected one confirmation for (%d,%d), got %r" % (p0, id0, r1["out"]), case_line)
+    # the re-issued request is outstanding and nothing was confirmed for it
+    got = [o for o in r2["out"] if o["o"] == "conf"]
+    if got:
+        O.fail("reenter", "a request issued from inside the confirmation callback was answered at once "
+               "with the reply of the PREVIOUS transaction: %r" % (got,), case_line)
+    new_sent = [o for o in r2["out"] if o["o"] == "send" and o["h"][0] == 0]
+    if len(new_sent) != 1:
+        O.fail("reenter", "the re-issued request did not go out exactly once: %r" % (r2["out"],), case_line)
+        return L
+    new_id = new_sent[0]["h"][6]
+    if (re["peer"], new_id) not in keyed(r2["cl"]):
+        O.fail("reenter", "the re-issued request (%d,%d) is not outstanding afterwards" % (re["peer"], new_id), case_line)
+    # every younger transaction is untouched
+    for k in before:
+        if k != (p0, id0) and k not in keyed(r2["cl"]):
+            O.fail("reenter", "transaction %r disappeared" % (k,), case_line)
+    # ... and it gets ITS answer (distinct content)
+    r3 = step(L.frame, re["peer"], {"t": 3, "id": new_id, "svc": 200, "hex": "e0e1e2e3e4"})
+    mine = [o for o in r3["out"] if o["o"] == "conf"]
+    if len(mine) != 1 or mine[0]["n"] != 5 or mine[0]["peer"] != re["peer"]:
+        O.fail("reenter", "the peer's real answer to the re-issued request was not delivered: %r" % (r3["out"],), L.events[-1])
+    # drain: answer the rest
+    for (p, i) in keyed(L.snapshot()["cl"]):
+        step(L.frame, p, {"t": 2, "id": i, "svc": 200})
+    if L.smap.clientTransactions:
+        O.fail("reenter", "transactions left after every request was answered", L.events[-1])
+    return L
+
+
 def independent_scenario(ctx, rng, label):
     """equal IDs from different peers are served independently (deterministic shape)"""
     cfg = T.default_cfg()
@@ -602,6 +692,8 @@ def shard_mix(ctx, spec):
             locks.append(exhaust_scenario(ctx, rng, label))
         elif kind == "indep":
             locks.append(independent_scenario(ctx, rng, label))
+        elif kind == "reenter":
+            locks.append(reenter_scenario(ctx, rng, label))
     T.compare(ctx, kind, locks)
     if locks:
         ctx.sample({"stream": kind, "reset": locks[0].reset_line, "first_events": locks[0].events[:4]})
@@ -621,10 +713,24 @@ def replay_events(ctx, label, reset, events):
     """re-execute a recorded event list on the real code (+ oracle) and the model"""
     L = T.Lock(reset["cfg"], reset.get("di", []), next_id=reset.get("nextId", 1))
     O = Oracle(ctx, L, label)
-    for ev in events:
+    skip = False
+    for idx, ev in enumerate(events):
         n0 = len(L.events)
         e = ev["e"]
-        if e == "req":
+        if skip:
+            skip = False
+            continue
+        if e == "frame" and "re" in ev:
+            re = ev["re"]
+            _r1, r2 = L.frame_reenter(ev["peer"], ev["a"], {"peer": re["peer"], "svc": re["svc"],
+                                                           "data": bytes.fromhex(re["hex"]), "id": re["id"]})
+            skip = r2 is not None
+            if r2 is not None:
+                got = [o for o in r2["out"] if o["o"] == "conf" and o["h"][0] != 7]
+                if got:
+                    O.fail("reenter", "a request issued from inside the confirmation callback was answered at "
+                           "once with the reply of the PREVIOUS transaction: %r" % (got,), ev)
+        elif e == "req":
             L.request(ev["peer"], ev["svc"], bytes.fromhex(ev["hex"]), ev["id"])
         elif e == "unconf":
             L.unconfirmed(ev["peer"], ev["svc"], bytes.fromhex(ev["hex"]))
@@ -659,6 +765,8 @@ def run(ctx):
     specs += [("wrap", i, i + 1, ev_wrap) for i in range(n_wrap)]
     specs += [("exhaust", i, i + 1, 0) for i in range(2 if q else 16)]
     specs += [("indep", 0, 8 if q else 64, 0)]
+    n_re = 160 if q else 3200
+    specs += [("reenter", lo, min(lo + n_re // 8, n_re), 0) for lo in range(0, n_re, n_re // 8)]
     core.run_shards(ctx, "harness.c11", "shard_mix", specs)
     rng = ctx.sub_rng("c11/nextid")
     cases = nextid_cases(ctx, rng)
